@@ -198,6 +198,19 @@ Noop(s) ==
        Finish(a1, [ss |-> a1.ss, out |-> NoOut], [Ev("Noop", s) EXCEPT !.src = ss[s].sel])
     /\ UNCHANGED <<msgs, files, fseq, next, dirty, force, nextId, agent>>
 
+(* STATUS m (do_status): what is queued for the session goes out first; then the
+   aggregates of mailbox m as the server has them *)
+Status(s, m) ==
+    /\ "Status" \in Acts /\ CanRun(s) /\ Clean(m)
+    /\ Selected(s) => Clean(ss[s].sel)
+    /\ LET a1 == IF Selected(s) THEN Flush(Acc0, s, "STATUS", FALSE) ELSE Acc0 IN
+       Finish(a1, [ss |-> a1.ss, out |-> NoOut],
+              [Ev("Status", s) EXCEPT !.mbox = m, !.src = ss[s].sel,
+                  !.told = [next |-> next[m], vv |-> Vv(m), exists |-> Len(msgs[m]), counts |-> TRUE,
+                            recent |-> CountWith(msgs[m], "Recent"), unseen |-> CountWith(msgs[m], "unseen"),
+                            first |-> 0]])
+    /\ UNCHANGED <<msgs, files, fseq, next, dirty, force, nextId, agent>>
+
 Idle(s) ==
     /\ "Idle" \in Acts /\ CanRun(s)
     /\ LET a1 == Flush(Acc0, s, "IDLE", FALSE) IN
@@ -461,6 +474,7 @@ Next ==
     \/ \E m \in Mbox : Resync(m)
     \/ \E s \in Sess, m \in Mbox, ro \in BOOLEAN : Select(s, m, ro)
     \/ \E s \in Sess : Unselect(s) \/ Noop(s) \/ Idle(s) \/ Done(s) \/ Close(s)
+    \/ \E s \in Sess, m \in Mbox : Status(s, m)
     \/ \E s \in Sess, u \in BOOLEAN, set \in Sets, mode \in Modes,
           F \in StoreFlags, silent \in Silents : Store(s, u, set, mode, F, silent)
     \/ \E s \in Sess, u \in BOOLEAN, set \in Sets, peek \in BOOLEAN : Fetch(s, u, set, peek)
